@@ -6,7 +6,7 @@ use std::time::Duration;
 
 use super::super::{add_socket, co_io_result, IoData};
 #[cfg(feature = "io_cancel")]
-use crate::coroutine_impl::co_cancel_data;
+use crate::coroutine_impl::co_get_handle;
 use crate::coroutine_impl::{is_coroutine, CoroutineImpl, EventSource};
 use crate::io::{CoIo, OptionCell};
 use crate::os::unix::net::UnixStream;
@@ -91,8 +91,11 @@ impl UnixStreamConnect {
 impl EventSource for UnixStreamConnect {
     fn subscribe(&mut self, co: CoroutineImpl) {
         #[cfg(feature = "io_cancel")]
-        let cancel = co_cancel_data(&co);
-        let io_data = &self.io_data;
+        // an owned handle: the cancel data must stay alive after the coroutine has been published below
+        let handle = co_get_handle(&co);
+        // an owned reference to the event data: once the coroutine is published another thread may resume it,
+        // `self` (on its stack) and the socket object may be gone before this function returns
+        let io_data = (**self.io_data).clone();
 
         #[cfg(feature = "io_timeout")]
         crate::scheduler::get_scheduler()
@@ -109,7 +112,8 @@ impl EventSource for UnixStreamConnect {
         #[cfg(feature = "io_cancel")]
         {
             // register the cancel io data
-            cancel.set_io((*io_data).clone());
+            let cancel = handle.get_cancel();
+            cancel.set_io(io_data.clone());
             // re-check the cancel status
             if cancel.is_canceled() {
                 unsafe { cancel.cancel() };
